@@ -24,6 +24,7 @@ import (
 	"github.com/Oneledger/protocol/data/keys"
 	"github.com/Oneledger/protocol/external_apps/bid/bid_action"
 	"github.com/Oneledger/protocol/external_apps/bid/bid_data"
+	"github.com/Oneledger/protocol/serialize"
 	"github.com/Oneledger/protocol/utils"
 
 	"verif/hist"
@@ -150,6 +151,16 @@ func (m *maker) hostileAddr() hv {
 		{nil, "addr-nil"},
 		{"", "addr-empty"},
 		{"0lt", "addr-empty"},
+		{"0", "addr-text-1char"},
+		{"0l", "addr-text-2chars"},
+		{"0x", "addr-text-0x"},
+		{"lt", "addr-text-2chars"},
+		{"0LT" + strings.Repeat("00", 20), "addr-text-upper-prefix"},
+		{" 0lt" + strings.Repeat("00", 20), "addr-text-leading-space"},
+		{"0lt0", "addr-odd-hex"},
+		{"０ｌｔ" + strings.Repeat("00", 20), "addr-text-unicode"},
+		{"0lt" + strings.Repeat("é", 20), "addr-text-unicode"},
+		{rawJSON(`{"0lt":1}`), "addr-object"},
 		{"0lt00", "addr-1byte"},
 		{"0ltabc", "addr-odd-hex"},
 		{"0ltzz", "addr-not-hex"},
@@ -190,7 +201,7 @@ func (m *maker) hostileAmtValue() (string, string) {
 		{"0", "amt-zero"}, {"1", "amt-one"}, {new(big.Int).Sub(p63, big.NewInt(1)).String(), "amt-2^63-1"}, {p63.String(), "amt-2^63"}, {p64.String(), "amt-2^64"},
 		{new(big.Int).Add(p64, big.NewInt(int64(k))).String(), "amt-2^64+k"}, {p256.String(), "amt-2^256"},
 		{"100000000000000000000000000000", "amt-over"},
-		{"1e5", "amt-malformed"}, {"abc", "amt-malformed"}, {"", "amt-malformed"}, {" 5", "amt-malformed"}, {"0x10", "amt-malformed"}, {"1.5", "amt-malformed"},
+		{"1e5", "amt-malformed"}, {"abc", "amt-malformed"}, {"", "amt-malformed"}, {"-", "amt-malformed"}, {"+", "amt-malformed"}, {"0x", "amt-malformed"}, {"١٢٣", "amt-malformed"}, {"-0", "amt-zero"}, {" 5", "amt-malformed"}, {"0x10", "amt-malformed"}, {"1.5", "amt-malformed"},
 		{strings.Repeat("9", 5000), "amt-5000-digits"},
 	}
 	x := pool[m.pick(len(pool), "amtv")]
@@ -237,14 +248,14 @@ func (m *maker) hostileBool() hv {
 }
 
 func (m *maker) hostileStr(old string) hv {
-	pool := []hv{{"", "str-empty"}, {strings.Repeat("A", 1024), "str-1kB"}, {strings.Repeat("B", 70000), "str-70kB"}, {nil, "str-null"}, {rawJSON("5"), "str-number"},
+	pool := []hv{{"", "str-empty"}, {"0", "str-1char"}, {"0l", "str-2chars"}, {"0lt", "str-0lt"}, {"0x", "str-0x"}, {"-", "str-1char"}, {strings.Repeat("A", 1024), "str-1kB"}, {strings.Repeat("B", 70000), "str-70kB"}, {nil, "str-null"}, {rawJSON("5"), "str-number"},
 		{old + "x", "str-changed"}, {strings.ToUpper(old), "str-upper"}, {"\u0000", "str-nul"}, {"..", "str-dots"}, {"a.b.c.d.e.f.g.ol", "str-deep-name"}, {old + old, "str-doubled"},
 		{strings.Repeat("é", 40), "str-multibyte"}, {"%s%n%x", "str-format"}, {rawJSON(`{"a":1}`), "str-object"}}
 	return pool[m.pick(len(pool), "str")]
 }
 
 func (m *maker) hostileBytes(old []byte) hv {
-	pool := []hv{{"", "bytes-empty"}, {nil, "bytes-null"}, {"!!!not base64", "bytes-not-base64"}, {base64.StdEncoding.EncodeToString([]byte{0}), "bytes-one"},
+	pool := []hv{{"", "bytes-empty"}, {nil, "bytes-null"}, {"!!!not base64", "bytes-not-base64"}, {"=", "bytes-not-base64"}, {"A", "bytes-not-base64"}, {"====", "bytes-not-base64"}, {"0lt", "bytes-not-base64"}, {base64.StdEncoding.EncodeToString([]byte{0}), "bytes-one"},
 		{base64.StdEncoding.EncodeToString(m.s.Bytes(64, "rndbytes")), "bytes-random"}, {rawJSON("[1,2,3]"), "bytes-array"}, {rawJSON("7"), "bytes-number"}}
 	if len(old) > 2 {
 		pool = append(pool, hv{base64.StdEncoding.EncodeToString(old[:len(old)/2]), "bytes-truncated"},
@@ -363,6 +374,12 @@ func (m *maker) signersOf(stx *action.SignedTx) ([]*sim.User, bool) {
 	return out, true
 }
 
+// ser serialises a signed transaction the way the node does (SignedBytes): the canonical encoding, the only one
+// the node accepts since the canonical-encoding fix.
+func ser(stx action.SignedTx) ([]byte, error) {
+	return serialize.GetSerializer(serialize.NETWORK).Serialize(stx)
+}
+
 func parseSigned(b []byte) (*action.SignedTx, error) {
 	stx := &action.SignedTx{}
 	if err := json.Unmarshal(b, stx); err != nil {
@@ -474,7 +491,7 @@ func (m *maker) mutateFields(base txgen.Tx) (Input, bool) {
 		for range signers {
 			sigs = append(sigs, action.Signature{Signer: m.f.W.G.U.Vals[0].EcdsaPub, Signed: []byte{1}})
 		}
-		b, err := json.Marshal(action.SignedTx{RawTx: raw, Signatures: sigs})
+		b, err := ser(action.SignedTx{RawTx: raw, Signatures: sigs})
 		if err != nil {
 			return Input{}, false
 		}
@@ -576,7 +593,7 @@ func (m *maker) mutateEnvelope(base txgen.Tx) (Input, bool) {
 		if sigs == nil {
 			sigs = []action.Signature{}
 		}
-		b, err := json.Marshal(action.SignedTx{RawTx: raw, Signatures: sigs})
+		b, err := ser(action.SignedTx{RawTx: raw, Signatures: sigs})
 		if err != nil {
 			return Input{}, false
 		}
@@ -732,6 +749,55 @@ func (m *maker) ethInput() Input {
 	return Input{Bytes: tx.Bytes, Kind: kind, Tier: "eth", Tags: []string{class}}
 }
 
+// ---------------------------------------------------------------- finality reports on the ongoing tracker
+
+// reportInput aims a finality report at the farm's ongoing, unfinalised ETH lock tracker (created by a real
+// ETH_LOCK and moved on by the block-end transitions): witness and non-witness signers, negative and
+// out-of-range vote indexes, other beneficiaries.
+func (m *maker) reportInput() Input {
+	f := m.f
+	u := f.W.G.U
+	name := txgen.TrackerName(f.LockRaw)
+	wl := f.W.WitnessList()
+	var signer *sim.User
+	stag := ""
+	right := int64(0)
+	switch m.pick(4, "repsigner") {
+	case 0, 1:
+		wi := m.pick(len(wl), "repwit")
+		for _, v := range u.Vals {
+			if v.Key.Addr.Equal(wl[wi]) {
+				signer = v.Key
+			}
+		}
+		right = int64(wi)
+		stag = "witness"
+	case 2:
+		signer = u.Vals[len(u.Vals)-1].Key // key material of a candidate that is neither validator nor witness
+		stag = "non-witness-candidate"
+	default:
+		signer = u.Users[m.pick(6, "repuser")]
+		stag = "non-witness-account"
+	}
+	if signer == nil {
+		signer = u.Users[0]
+		stag = "non-witness-account"
+	}
+	idxs := []int64{-1, -1, -1, -2, -3, -5, -128, -129, -2147483648, -9223372036854775808, right, right + 1, int64(len(wl)), int64(len(wl)) - 1, 1 << 31, 1<<63 - 1}
+	idx := idxs[m.pick(len(idxs), "repidx")]
+	itag := fmt.Sprintf("idx=%d", idx)
+	if idx == right && stag == "witness" {
+		itag = "idx-right"
+	}
+	locker := f.A.Addr
+	if m.pick(4, "replocker") == 0 && !m.excluded("ETH_REPORT_FINALITY_MINT", "locker-other") {
+		locker = f.B.Addr
+		itag += ",locker-other"
+	}
+	tx := txgen.ReportFinality(signer, name, locker, signer.Addr, idx, m.pick(4, "repyes") != 0, f.W.Fee, m.memo())
+	return Input{Bytes: tx.Bytes, Kind: "ETH_REPORT_FINALITY_MINT", Tier: "report", Tags: []string{stag, itag}}
+}
+
 // ---------------------------------------------------------------- OLVM
 
 // olvmPrograms are init codes exercising opcodes and situations the chain's EVM setup may not support.
@@ -870,7 +936,7 @@ func (m *maker) olvmInput() Input {
 					tags = append(tags, field+"="+h.class)
 					if data, err := json.Marshal(msg); err == nil {
 						stx.Data = data
-						if b, err := json.Marshal(stx); err == nil {
+						if b, err := ser(*stx); err == nil {
 							tx.Bytes = b
 						}
 					}
@@ -906,7 +972,7 @@ func (m *maker) olvmInput() Input {
 			default:
 				stx.Signatures, tag = append(stx.Signatures, stx.Signatures[0]), "signatures-extra"
 			}
-			if b, err := json.Marshal(stx); err == nil {
+			if b, err := ser(*stx); err == nil {
 				tx.Bytes = b
 				tags = append(tags, tag)
 			}
@@ -1099,9 +1165,11 @@ func (m *maker) draw(g *hist.Gen) Input {
 			if in, ok := m.mutateEnvelope(base); ok {
 				return in
 			}
-		case k < 88:
+		case k < 87:
 			return m.ethInput()
-		case k < 95:
+		case k < 91:
+			return m.reportInput()
+		case k < 96:
 			return m.olvmInput()
 		default:
 			return m.bidInput()
